@@ -48,6 +48,8 @@ def main():
                     print("    ", w[:300])
     finally:
         subprocess.run(["git", "-C", "/repo", "checkout", "--", "."])
+        # tables regenerated from the patched tree must not survive the run
+        subprocess.run(["git", "-C", V, "checkout", "--", "lean/Generated"])
         for ef, txt in saved.items():
             if txt is not None:
                 open(ef, "w").write(txt)
